@@ -247,4 +247,16 @@ theorem noRefusal_route (m : Matcher) (n : Node) (path : QStr) :
   · rw [h1, h3]
     simp [noRefusal, mwAct]
 
+/-- shape of every routing run: the consulted middleware (all accepting), then either one terminal
+    action or one refusal — nothing else -/
+theorem route_cases (m : Matcher) (n : Node) (path : QStr) :
+    ∃ pre : List (Nat × Bool), allAccept pre = true ∧
+      ((∃ t, isTerminalAct t = true ∧ route m n path = pre.map mwAct ++ [t] ∧ noRefusal (route m n path) = true) ∨
+       (∃ id, route m n path = pre.map mwAct ++ [.mw id false] ∧ noRefusal (route m n path) = false)) := by
+  have hn := noRefusal_route m n path
+  rw [hn, route_struct, tailOf]
+  rcases ttfr_cases (chain m n path) with ⟨h1, h2⟩ | ⟨h1, pre, i, h2, h3⟩
+  · exact ⟨chain m n path, h1, Or.inl ⟨termOf m n path, termOf_terminal m n path, by simp [h1, h2], h1⟩⟩
+  · exact ⟨pre, h2, Or.inr ⟨i, by simp [h1, h3, mwAct], h1⟩⟩
+
 end Qhttp.RouteL
